@@ -156,10 +156,13 @@ fn run_lru(cap: usize, hist: &[LOp]) -> Outcome<LOp> {
     let fp = mc::fp_of(&(cap, r.list.iter().map(|e| (e.0, now.saturating_duration_since(e.2).as_secs().min(11))).collect::<Vec<_>>(), cache.len(), impl_view));
     let mut enabled = vec![];
     if violation.is_none() {
-        for k in 1..=3u8 {
+        // one key more than the cache holds (at least three): with capacity 3 an entry can sit in the
+        // middle of the list and a fourth key evicts
+        let keys = (cap as u8 + 1).max(3);
+        for k in 1..=keys {
             enabled.push(LOp::Insert(k));
         }
-        for k in 1..=3u8 {
+        for k in 1..=keys {
             enabled.extend([LOp::Get(k), LOp::GetMut(k), LOp::Peek(k), LOp::Remove(k)]);
         }
         enabled.extend([LOp::Purge, LOp::Len, LOp::Idle(4), LOp::Idle(7)]);
